@@ -1321,6 +1321,13 @@ fn debug_json(path: &str) {
     Some(Ok(s)) => {
       println!("construct: Ok");
       println!("config: {}", serde_json::to_string(&s.clone().as_config()).unwrap());
+      let c1 = s.clone().as_config();
+      let txt = serde_json::to_string(&c1).unwrap();
+      let back: Result<SPDCConfig, _> = serde_json::from_str(&txt);
+      match back {
+        Ok(b) => println!("json-roundtrip-equal: {} back={}", b == c1, serde_json::to_string(&b).unwrap()),
+        Err(e) => println!("json-roundtrip-err: {}", e),
+      }
       println!("finite: {:?}", guard(|| setup_finite(s)));
       println!("spectra: {:?}", guard(|| spectra_finite(s)));
     }
